@@ -132,6 +132,11 @@ def cases(tier, seed):
         for m_ in range(1, n + 1):
             for j_ in range(m_):
                 out.append({"key": f"fault/breakdown/n={n}/m={m_}/j={j_}", "cls": "fault", "n": n, "scale": 1.0, "m_": m_, "j_": j_})
+    # second named fault path: the LU factorisation inside the left preconditioner reports a zero pivot (injected: quaternion_lu raises);
+    # the solver falls back to the unpreconditioned system and must still solve it and tell the truth
+    for n in (2, 3, 4, 5):
+        for rhs in ("generic", "e0"):
+            out.append({"key": f"fault/lu_zero_pivot/n={n}/rhs={rhs}", "cls": "fault_lu", "n": n, "scale": 1.0, "rhs": rhs})
     # ill-conditioned systems (cond 1e7..1e10): only the truthfulness of info.residual is decided there, against an
     # extended-precision (80-bit) evaluation of ||Ax-b||/||b||
     for n in (4, 6, 9):
@@ -360,7 +365,62 @@ def run_fault(case, seed):
             "path": path, "obs": [len(fails), path]}
 
 
+def run_fault_lu(case, seed):
+    import sys as _sys
+
+    lib = load()
+    S = lib.solver.QGMRESSolver
+    n = case["n"]
+    fill = G.Fill(seed, stream=hash_tag(f"faultlu/{n}"))
+    A = fill.quat(n, n, bits=4, lo=-32, hi=32) + 3.0 * O.qeye(n)
+    b = np.zeros((n, 1, 4))
+    if case["rhs"] == "e0":
+        b[0, 0, 0] = 1.0
+    else:
+        b = fill.quat(n, 1, bits=3, lo=-16, hi=16)
+        if not b.any():
+            b[0, 0, 0] = 1.0
+    Aq, bq = G.to_quat(A), G.to_quat(b)
+    mods = [mm for nm, mm in list(_sys.modules.items()) if nm in ("decomp", "quatica.decomp", "decomp.LU", "quatica.decomp.LU") and hasattr(mm, "quaternion_lu")]
+    saved = [(mm, mm.quaternion_lu) for mm in mods]
+    hit = {"n": 0}
+
+    def raising(*a, **k):
+        hit["n"] += 1
+        raise ValueError("Zero pivot encountered (injected)")
+
+    for mm, _ in saved:
+        mm.quaternion_lu = raising
+    try:
+        ok, res = call(S(tol=1e-10, preconditioner="left_lu").solve, Aq, bq)
+    finally:
+        for mm, f in saved:
+            mm.quaternion_lu = f
+    ok0, res0 = call(S(tol=1e-10).solve, Aq, bq)
+    fails = []
+    tags = {"cls": "fault_lu", "n": n}
+    path = "fault_not_reached"
+    if hit["n"]:
+        path = "lu_fault_injected:" + ("raised" if not ok else "returned")
+        if not ok:
+            fails.append(fail("raised", f"left_lu with a failing LU: {type(res).__name__}: {res} (documented behaviour: continue without preconditioner)", **tags))
+        else:
+            x = G.from_quat(res[0]).reshape(n, 1, 4)
+            info = res[1]
+            tr = O.fro(O.qmatmul(A, x) - b) / O.fro(b)
+            rep = info.get("residual")
+            if rep is None or abs(rep - tr) > 1e-9 * max(tr, 1e-300) + 1e-13:
+                fails.append(fail("info.residual_truthful", f"after the LU fallback: info.residual = {rep!r}, true {tr!r}", **tags))
+            if tr > 1e-9:
+                fails.append(fail("solves_within_n_cycles", f"after the LU fallback: true residual {tr:.3e}", **tags))
+            if ok0 and G.from_quat(res0[0]).tobytes() != G.from_quat(res[0]).tobytes():
+                fails.append(fail("fallback=unpreconditioned", "after the LU fallback the solution differs from the unpreconditioned run", **tags))
+    return {"key": case["key"], "fails": fails, "nontrivial": bool(hit["n"]), "digest": digest(A, b), "states": [path], "transitions": 1, "traces": 0 if fails else 1, "path": "fault_" + path, "obs": [len(fails), path]}
+
+
 def run_case(case, seed):
+    if case["cls"] == "fault_lu":
+        return run_fault_lu(case, seed)
     if case["cls"] == "illcond":
         return run_illcond(case, seed)
     if case["cls"] == "fault":
